@@ -163,7 +163,14 @@ impl Property for C18 {
             };
         }
         // every recorded duration is a finite number >= 0, so it never falls in the bucket le=-1 and always in le=f64::MAX
-        let hist = Histogram::with_opts(HistogramOpts::new("t", "h").buckets(vec![-1.0, f64::MAX])).unwrap();
+        // (a fifth of the cases: a histogram without any finite bucket, or with a single one that no duration reaches)
+        let cfg = src.below(10);
+        let bounds: Vec<f64> = match cfg {
+            0 => vec![f64::INFINITY],
+            1 => vec![-1.0],
+            _ => vec![-1.0, f64::MAX],
+        };
+        let hist = Histogram::with_opts(HistogramOpts::new("t", "h").buckets(bounds)).unwrap();
         let mut locals: Vec<Option<LocalHistogram>> = vec![];
         let mut pending: Vec<u64> = vec![];
         let mut shared_count: u64 = 0;
@@ -381,7 +388,12 @@ impl Property for C18 {
                 let m = hist.metric();
                 let h = m.get_histogram();
                 let b: Vec<u64> = h.get_bucket().iter().map(|b| b.cumulative_count()).collect();
-                if h.get_sample_count() != shared_count || b.len() != 2 || b[0] != 0 || b[1] != shared_count {
+                let buckets_ok = match cfg {
+                    0 => b.is_empty(),
+                    1 => b.len() == 1 && b[0] == 0,
+                    _ => b.len() == 2 && b[0] == 0 && b[1] == shared_count,
+                };
+                if h.get_sample_count() != shared_count || !buckets_ok {
                     return fail(
                         "timer-bucket-count-mismatch",
                         format!(
